@@ -422,7 +422,7 @@ class Script:
         return self.add("mod %s %s %s %s %s A none B 0" % (mid, hx(start), hx(end), hx(base_avma), hx(base_svma)))
     def module_dwarf(self, mid, start, end, base_avma, base_svma, pres, fdes, rng=None,
                      shuffle=False, n_cies=1, eh_svma=None, hdr_svma=None, hdr_enc="abs8", pcrel=False, mixed=False, macho_names=False,
-                     order=None, hdr_extra=()):
+                     order=None, hdr_extra=(), eh_noaddr=False):
         if order is not None:
             order = list(order)                  # explicit section order of the FDEs
         else:
@@ -442,7 +442,9 @@ class Script:
             text_svma, got_svma = base_svma + 0x800, base_svma + 0x280000
             data, offs = build_eh_frame(sec_fdes, self.arch, None, n_cies, eh_svma if pcrel else None,
                                         (eh_svma, rng, text_svma, got_svma) if mixed and rng is not None else None)
-            secs.append((".eh_frame", data, (eh_svma, eh_svma + len(data))))
+            # eh_noaddr: the module does not state where .eh_frame lies (only its bytes): enough when nothing in the CFI
+            # is relative to the section itself
+            secs.append((".eh_frame", data, None if (eh_noaddr and not pcrel and not (mixed and rng is not None)) else (eh_svma, eh_svma + len(data))))
             if mixed and rng is not None:
                 # the address ranges of the sections that relative pointer encodings refer to
                 secs.append((".text", None, (text_svma, text_svma + 0x100000)))
